@@ -230,6 +230,12 @@ class BaseKLEORSearch(FilterKNN, ABC):
             b_nun_sf_distances = self._crossed_distances_fn(nuns, cases, mask=filter_mask)
             b_input_sf_distances = self._crossed_distances_fn(inputs, cases, mask=filter_mask)
 
+            # a query without NUN has an infinite placeholder as NUN: the distance to it is
+            # infinite for most distances but NaN for others (e.g. cosine), such slots stay unfilled
+            b_nun_sf_distances = tf.where(
+                tf.math.is_nan(b_nun_sf_distances), self.fill_value, b_nun_sf_distances
+            )
+
             # additional filtering
             b_nun_sf_distances, b_input_sf_distances = self._additional_filtering(
                 b_nun_sf_distances, b_input_sf_distances, nuns_input_distances
